@@ -54,7 +54,9 @@ def case(draw, tier):
         keyforms = ["k", 0, "j"]  # documented for one key field
     key = draw(st.sampled_from(keyforms))
     c = {"op": op, "table": tbl, "key": key, "buffersize": draw(gen.buffersizes(len(tbl) - 1)),
-         "presorted": key == "callable" or draw(st.integers(0, 3)) == 0}
+         "presorted": key == "callable" or draw(st.integers(0, 3)) == 0,
+         # the input may itself be a petl view sorted by the first key field (a stable pre-sort keeps the groups' row order)
+         "upstream": draw(st.sampled_from(["none", "none", "none", "sortfirst", "sortfirst-rev", "wrap"]))}
     if op == "agg_list":
         c["value"] = draw(st.sampled_from(["id", ("id", "v"), None, 3]))
         c["field"] = draw(st.sampled_from([None, "agg"]))
@@ -143,6 +145,14 @@ def check(case, ctx):
     if presorted and op not in ("agg_none", "valuecounts", "merge"):
         srt = R.ref_sort(tbl, 0 if key == "callable" else key)
         src = [list(r) for r in srt]
+    up = case.get("upstream", "none")
+    if up != "none" and not presorted and key != "callable" and op != "merge":
+        f0 = 0 if op in ("agg_none", "valuecounts") else (key[0] if isinstance(key, (list, tuple)) else key)
+        src = etl.sort(src, f0) if up == "sortfirst" else etl.sort(src, f0, reverse=True) if up == "sortfirst-rev" else etl.wrap(src)
+        if op in ("agg_none",) and up != "wrap":
+            up = "none"   # key-less aggregates list rows in input order: a pre-sort would change the expected order
+            src = codec.snapshot(tbl)
+        ctx.label("upstream:" + up)
     kw = {}
     if presorted and op not in ("agg_none", "valuecounts", "gcdv"):
         kw["presorted"] = True
